@@ -721,7 +721,7 @@ fn stress(rng: &mut Rng, rep: &mut Report, case_no: u64, nthreads: usize, ops_pe
 pub fn run(args: &Args) -> i32 {
     let mut rep = Report::new(args);
     let small = args.has("--small"); // Miri-sized
-    let n = args.count(3200, 160_000);
+    let n = args.count(96_000, 1_600_000);
     let hist_len = if small { 30 } else { 60 };
     let stress_every = if small { 5 } else { 100 };
     let range: Vec<u64> = match args.case {
